@@ -17,9 +17,8 @@ func checkC11(r *harness.Run) harness.Coverage {
 	if r.Thorough() {
 		maxW = 6
 	}
-	g := univ.NewGen(univ.ErrFragment(errCompounds))
-	bad := map[string]bool{"abs": true, "nosuch": true, "max": true}
-	exprs := buildExprs(g, maxW, func(toks []model.Tok, _ *model.Node) bool {
+	bad := map[string]bool{"abs": true, "nosuch": true, "max": true, "sum": true, "sort": true}
+	keep := func(toks []model.Tok, _ *model.Node) bool {
 		for i, t := range toks {
 			if t.Kind == model.UID && bad[t.Text] {
 				return true
@@ -35,7 +34,10 @@ func checkC11(r *harness.Run) harness.Coverage {
 			}
 		}
 		return false
-	})
+	}
+	// the six classic erroring compounds up to the full weight bound; the two array-element compounds (added
+	// later) in their own universe up to weight 5 (one universe with all eight at weight 6 needs > 60 GB)
+	var exprs []exprCase
 	docs := univ.Js(`null`, `{}`, `[]`, `1`, `"a"`, `true`, `[1]`, `[1,2]`, `[[1],[2]]`, `[{"a":1},{"a":null}]`, `[{"k":1},{"k":"a"}]`, `[{"k":1},{"k":2}]`,
 		`{"a":1}`, `{"a":null,"b":1}`, `{"a":[1,2],"b":[]}`, `{"a":[],"b":[1]}`, `{"a":{"a":1},"b":{}}`, `{"a":[{"k":1},{"k":"x"}],"b":0}`, `{"a":"","b":"x"}`,
 		`{"a":false,"b":true}`, `{"a":[[1]],"b":[[]]}`, `{"a":[null],"b":null}`, `[null]`, `[[]]`, `[{}]`, `{"a":{"b":[1]}}`, `{"b":{"a":[1,2]}}`, `[[1,2],[3]]`, `{"a":[{"a":[1]}]}`, `[0]`)
@@ -48,7 +50,13 @@ func checkC11(r *harness.Run) harness.Coverage {
 		exprs = append(exprs, exprFromText(e))
 	}
 	st := conform(r, exprs, docs, conformOpts{})
-	finishConform(r, st, len(exprs), len(docs))
-	sampleExprs(r, exprs, docs)
+	nexpr := len(exprs)
+	stA, nA, sampA := conformGen(r, univ.NewGen(univ.ErrFragment(errCompounds[:6])), maxW, keep, docs, conformOpts{})
+	stB, nB, _ := conformGen(r, univ.NewGen(univ.ErrFragment(errCompounds[6:])), 5, keep, docs, conformOpts{})
+	st.add(stA)
+	st.add(stB)
+	nexpr += nA + nB
+	finishConform(r, st, nexpr, len(docs))
+	sampleExprs(r, sampA, docs)
 	return harness.Coverage{Exhaustive: true, Bounds: map[string]interface{}{"context_weight": maxW, "erroring_expressions": len(errCompounds), "documents": len(docs)}, Outcomes: distinctOutcomes(st)}
 }
